@@ -88,6 +88,20 @@ CLAIMED = {
             'Cell / bin membership of boundary values is delegated to C01 / C02 (events here sit on origins / edges or well '
             'inside). Trusted: world construction in vh/drivers/c03.py.',
             '5/C03'),
+    'C05': ('TLA+ spec computing each statistic as a formal exact-real expression (XR.tla / PoissonLL.tla); TLC decides the '
+            'structure for every small forecast x observation x kind; expressions interpreted at 50 digits and compared '
+            'with the real tests; for random forecasts TLC returns the expected expression of the observed and of every '
+            'simulated catalog (TracePoissonLL)',
+            'TLC enumerates all 2x2 rate-id matrices (ids 0..2, 0 = zero rate) x observations of <=3 events x {L,CL,S,M} '
+            '(11 200 states) and checks NegInfIff, LEqualsCL, MarginalsConsistent and Shape; every case is built as '
+            'GriddedForecast + CSEPCatalog for 2 (quick) / 6 (thorough) rate tables spanning 1e-12..1e3 and the public '
+            'likelihood / conditional_likelihood / spatial / magnitude tests must return the interpreted expression. Random '
+            'forecasts up to 40x8 bins with zero rates and up to 150 events are evaluated with injected uniform numbers; '
+            'TLC derives the expression for the observed statistic and for each simulated catalog and both '
+            'observed_statistic and every test_distribution entry must match, as must the quantile rule.',
+            'Numerical agreement of numpy/scipy leaves is decided against mpmath at rtol 1e-9 / atol 1e-11, not by TLC. '
+            'Trusted: vh/xr.py (XR interpreter), vh/invcdf.py (exact inverse-CDF placement, checked itself under C06).',
+            '5/C05'),
 }
 
 NOT_YET = 'check not built yet in this round (specification planned in DESIGN.md section 5); not claimed until it exists'
